@@ -103,13 +103,159 @@ def oracle(c):
     return None
 
 
+# ------------------------------------------------------------------------------------------------
+# extended cases (harness/c14/xcases.go): refusing allocator, shared memories, imported memory seen through two views
+
+def areq_by_op(c):
+    d = {}
+    for k, size, ans in c.get("areq") or []:
+        d.setdefault(k - 1, []).append((size, ans))
+    return d
+
+
+def coq_xcase(c):
+    cf = c["cfg"]
+    req = areq_by_op(c)
+    min_ans = req[-1][0][1] == 1 if -1 in req else True
+    cfg = ("{| x_c := {| c_min := %d; c_hasmax := %s; c_max := %d; c_limit := %d; c_capmax := %s; c_alloc := %s |}; "
+           "x_shared := %s; x_threads := %s; x_min_ans := %s |}") % (
+        cf["min"], coq_bool(cf["hasmax"]), cf["max"], cf["limit"], coq_bool(cf["capmax"]), coq_bool(cf["alloc"]),
+        coq_bool(cf["shared"]), coq_bool(cf["threads"]), coq_bool(min_ans))
+    ops, obs, reqs = [], [], []
+    if c["status"] == 1:
+        for j, (op, ob) in enumerate(zip(c["ops"], c["obs"])):
+            v = coq_bool(c["view"][j] == 1)
+            rs = req.get(j, [])
+            if op[0] in ("ggrow", "hgrow"):
+                ops.append("XGrow %s %s %d" % (v, coq_bool(rs[0][1] == 1 if rs else True), op[1]))
+            else:
+                ops.append("XBase %s (%s)" % (v, coq_op(op)))
+            obs.append(coq_obs(ob))
+            reqs.append("(%d)" % (-1 if not rs else (rs[0][0] if len(rs) == 1 else -2)))
+    return "(%s, %d, [%s], [%s], [%s])" % (cfg, c["status"], "; ".join(ops), "; ".join(obs), "; ".join(reqs))
+
+
+def xoracle(c):
+    """The property on the observations of an extended case alone (no model). The allocator's own log (what it was asked,
+    what it answered) is part of the observations: the schedule is the allocator's business."""
+    cf = c["cfg"]
+    bound = min(cf["max"], cf["limit"]) if cf["hasmax"] else cf["limit"]
+    valid = cf["min"] <= bound and (not cf["hasmax"] or (cf["min"] <= cf["max"] <= 65536)) and cf["limit"] <= 65536
+    if cf["shared"]:
+        valid = valid and cf["threads"] and cf["hasmax"]
+    req = areq_by_op(c)
+    if c["status"] not in (0, 1, 2):
+        return "set-up failed: %s" % c.get("err")
+    if (c["status"] != 0) != valid:
+        return "configuration %s: status=%d (%s) but the declared limits are %s" % (cf, c["status"], c.get("err"), "valid" if valid else "invalid")
+    if c["status"] == 0:
+        if c.get("areq"):
+            return "a refused configuration reached the allocator: %s" % c["areq"]
+        return None
+    # instantiation: an allocator is asked once, for exactly the minimum (and told capacity <= max <= bound)
+    if cf["alloc"]:
+        if req.get(-1, [None])[0] is None or len(req[-1]) != 1 or req[-1][0][0] != cf["min"] << 16:
+            return "instantiation: the allocator was asked %s, expected one request for %d bytes" % (req.get(-1), cf["min"] << 16)
+        if (c.get("alloc_args") or [0, 0])[1] != bound << 16:
+            return "instantiation: Allocate(cap,max)=%s but the maximum is %d bytes" % (c.get("alloc_args"), bound << 16)
+        refused_min = req[-1][0][1] == 0 and cf["min"] > 0
+    else:
+        if c.get("areq"):
+            return "no allocator configured but one was asked: %s" % c["areq"]
+        refused_min = False
+    if refused_min != (c["status"] == 2):
+        return "instantiation: allocator %s the minimum of %d pages but status=%d (%s)" % (
+            "refused" if refused_min else "granted", cf["min"], c["status"], c.get("err"))
+    if c["status"] == 2:
+        if c.get("after_panic") != "clean":
+            return "instantiation failed (allocator refused the minimum) but not cleanly: %s" % c.get("after_panic")
+        return None
+    shadow, pg = {}, cf["min"]
+    at_top = lambda: c["engine"] == "compiler" and pg == 65536    # F12 territory: what the compiled guest sees at 65536 pages
+    for j, (op, ob) in enumerate(zip(c["ops"], c["obs"])):
+        via = "importer" if c["view"][j] == 1 else "exporter"
+        if c["pg"][j] != pg:
+            return "op %d: host Grow(0) reports %d pages, %d expected from the history of successful grows" % (j, c["pg"][j], pg)
+        ln = pg << 16
+        k = op[0]
+        if ob[0] not in ("ok", "fail"):
+            return "op %d %s via %s: %s" % (j, op, via, ob)
+        rs = req.get(j, [])
+        if k in ("ggrow", "hgrow"):
+            d = op[1]
+            within = pg + d <= bound
+            asked = cf["alloc"] and within and d > 0
+            if asked != (len(rs) > 0) or len(rs) > 1 or (asked and rs[0][0] != (pg + d) << 16):
+                return "op %d: grow(%d) at %d pages (bound %d, allocator %s): the allocator was asked %s, expected %s" % (
+                    j, d, pg, bound, cf["alloc"], rs, [(pg + d) << 16] if asked else "nothing")
+            refused = asked and rs[0][1] == 0
+            want = within and not refused
+            if (ob[0] == "ok") != want or (want and ob[1] != pg):
+                return "op %d: grow(%d) via %s at %d pages (bound %d, allocator %s) -> %s" % (
+                    j, d, via, pg, bound, "refused" if refused else ("agreed" if asked else "not asked"), ob)
+            old = pg
+            if want: pg += d
+            fr = c.get("fresh") or []
+            if want and d > 0 and j < len(fr) and fr[j] != 0 and not at_top():
+                return "op %d: grow(%d) to %d pages exposed a non-zero byte (%d) at the start of the new region" % (j, d, pg, fr[j])
+            if not want and j < len(fr) and fr[j] != -1:
+                return "op %d: failed grow(%d) at %d pages changed the size" % (j, d, old)
+        else:
+            if rs:
+                return "op %d %s: the allocator was asked %s by an operation that is not a grow" % (j, op, rs)
+            if k in ("pages", "gsize"):
+                if ob != ["ok", pg]:
+                    return "op %d: %s via %s returned %s at %d pages" % (j, k, via, ob, pg)
+            elif k == "size":
+                if ob != ["ok", ln & 0xffffffff]:
+                    return "op %d: Size() returned %s at %d pages" % (j, ob, pg)
+            elif k in ("read", "gload"):
+                n, off = (op[1], op[2]) if k == "read" else (1, op[1])
+                want = off + n <= ln
+                if (ob[0] == "ok") != want:
+                    return "op %d: %s via %s n=%d off=%d len=%d -> %s" % (j, k, via, n, off, ln, ob)
+                if want:
+                    v = sum(shadow.get(off + i, 0) << (8 * i) for i in range(n))
+                    if ob[1] != v:
+                        return "op %d: %s via %s off=%d returned %d, expected %d" % (j, k, via, off, ob[1], v)
+            elif k == "readr":
+                if (ob[0] == "ok") != (op[1] + op[2] <= ln):
+                    return "op %d: Read(%d,%d) len=%d -> %s" % (j, op[1], op[2], ln, ob)
+            elif k in ("write", "gstore", "writer"):
+                if k == "write": off, bs = op[2], [(op[3] >> (8 * i)) & 255 for i in range(op[1])]
+                elif k == "gstore": off, bs = op[1], [op[2] & 255]
+                else: off, bs = op[1], [b & 255 for b in op[2:]]
+                want = off + len(bs) <= ln
+                if (ob[0] == "ok") != want:
+                    return "op %d: %s via %s off=%d n=%d len=%d -> %s" % (j, k, via, off, len(bs), ln, ob)
+                if want:
+                    for i, b in enumerate(bs): shadow[off + i] = b
+        # after every operation: the guest through both modules and the host through both agree on the size
+        vw = c["views"][j]
+        exp = [pg, pg if cf["imported"] else -1, pg, pg if cf["imported"] else -1]
+        for i, nm in enumerate(("memory.size in the exporter", "memory.size in the importer", "host pages of the exporter", "host pages of the importer")):
+            if vw[i] != exp[i] and not (i < 2 and at_top()):
+                return "after op %d %s via %s: %s is %d, %d pages expected (views %s)" % (j, op, via, nm, vw[i], pg, vw)
+        cm = c.get("committed") or []
+        if cf["alloc"] and j < len(cm) and cm[j] != (pg << 16):
+            return "after op %d %s: the memory has %d bytes but the allocator's committed size is %d" % (j, op, pg << 16, cm[j])
+    if any(k - 1 >= len(c["ops"]) for k, _, _ in c.get("areq") or []):
+        return "the allocator was asked by a size probe: %s" % c["areq"]
+    return None
+
+
 def run(tier, seed):
     ck = Check("C14", tier, seed)
     ck.trusted += ["tools/go2coq (Go->Gallina translator for hasSize, Pages, Size, MemoryPagesToBytesNum, memoryBytesNumToPages, Memory.Validate, newMemorySizer)",
                    "hand transcription of Grow/Read*/Write* control flow in coq/Rt/MemInst.v, tied by the correspondence run",
                    "harness/c14 (Go) and checks/c14.py (case conversion, oracle)"]
-    ck.assumptions += ["the experimental.MemoryAllocator used by the harness always succeeds up to max", "shared memories are not modelled",
-                       "api.Memory.Size() wrapping to 0 at 65536 pages is documented behaviour, modelled as such"]
+    ck.assumptions += ["api.Memory.Size() wrapping to 0 at 65536 pages is documented behaviour, modelled as such",
+                       "the allocator is an arbitrary oracle for WHETHER it answers; when it answers it keeps its contract (a buffer of the requested "
+                       "length, old contents kept, new bytes zero, same address for shared memories)",
+                       "an allocator answering nil to Reallocate(0) at the instantiation of a SHARED memory is outside the model (observed: the memory "
+                       "instantiates with a nil buffer and the first grow the allocator agrees to panics 'shared memory cannot move'); never generated",
+                       "shared memories: sequential histories only (the mutex / atomic length stores of Grow have no sequential content); "
+                       "no concurrent guest code while the host grows"]
     proofs_ok = ck.proofs()
     n, huge = (160, 3) if tier == "quick" else (3000, 40)
     if not proofs_ok:
@@ -118,7 +264,8 @@ def run(tier, seed):
     if not binp:
         ck.violation("harness-build", {"kind": "build"}, {"log": log[-3000:]}, no_input=True)
         return ck.finish()
-    rc, out = sh([binp, "-seed", str(seed), "-n", str(n), "-huge", str(huge)], timeout=3000)
+    nx = 110 if tier == "quick" else 1500
+    rc, out = sh([binp, "-seed", str(seed), "-n", str(n), "-huge", str(huge), "-nx", str(nx)], timeout=3000)
     cases = []
     for ln in out.split("\n"):
         if ln.startswith("{"):
@@ -127,6 +274,8 @@ def run(tier, seed):
         ck.violation("harness-crash", {"kind": "crash"}, {"rc": rc, "tail": out[-3000:]}, no_input=False)
         return ck.finish()
     ck.cases = len(cases)
+    xcases = [c for c in cases if c.get("x")]
+    cases = [c for c in cases if not c.get("x")]
     # distribution
     dist = {"accepted": 0, "rejected": 0, "engine": {}, "ops": {}, "outcomes": {}, "at_4GiB": 0}
     seen = set()
@@ -179,6 +328,68 @@ def run(tier, seed):
             sig["kind"] = "model-differs"
         detail = {"case": c, "model_first_diff_op": j, "oracle": why}
         key = (sig["kind"], sig["engine"])
+        if key in reported and len(reported) > 6:
+            continue
+        reported.add(key)
+        ck.violation(sig["kind"], sig, detail, no_input=(why is None and sig["kind"] == "model-differs"))
+    # ---- extended cases: refusing allocator / shared / imported memory through two views
+    xd = {"cases": len(xcases), "status": {}, "shared": 0, "allocator": 0, "imported": 0, "allocator_requests": 0, "allocator_refusals": 0,
+          "refused_grows_within_bound": 0, "ops_via_importer": 0, "at_4GiB": 0, "ops": {}, "outcomes": {}}
+    for c in xcases:
+        xd["status"][str(c["status"])] = xd["status"].get(str(c["status"]), 0) + 1
+        if c["status"] == 1:
+            for f in ("shared", "imported"): xd[f] += 1 if c["cfg"][f] else 0
+            xd["allocator"] += 1 if c["cfg"]["alloc"] else 0
+            xd["ops_via_importer"] += sum(c["view"])
+            if any(p == 65536 for p in c["pg"]): xd["at_4GiB"] += 1
+            for op, ob in zip(c["ops"], c["obs"]):
+                xd["ops"][op[0]] = xd["ops"].get(op[0], 0) + 1
+                xd["outcomes"][ob[0]] = xd["outcomes"].get(ob[0], 0) + 1
+            key = json.dumps([c["cfg"], c["engine"], c["ops"], c["view"]], sort_keys=True)
+            if len(c["ops"]) > 2: seen.add(key)
+        xd["allocator_requests"] += len(c.get("areq") or [])
+        xd["allocator_refusals"] += sum(1 for a in (c.get("areq") or []) if a[2] == 0)
+        xd["refused_grows_within_bound"] += sum(1 for a in (c.get("areq") or []) if a[2] == 0 and a[0] > 0)
+    ck.dist["extended"] = xd
+    ck.distinct = len(seen)
+    ck.extra["rule"] += ("; extended cases: (min,max?,limit,capacity-from-max,allocator with a refusal schedule (request-number mask / size threshold) "
+                         "derived from VERIF_SEED, shared, threads feature, imported) x histories whose every operation goes through the exporter or "
+                         "the importer of the memory, both engines, plus fixed witnesses at 65535/65536 pages for the shared / refusing / imported flavours")
+    xmism = []
+    for s0 in range(0, len(xcases), SH):
+        shard = xcases[s0:s0 + SH]
+        v = ("From Verif Require Import Lib.GoInt Rt.MemInst Rt.MemInstX.\nOpen Scope Z_scope.\n"
+             "Definition cases : list xcase := [\n" + ";\n".join(coq_xcase(c) for c in shard) + "].\n"
+             "Definition M := Eval vm_compute in xmismatches 0 cases.\nPrint M.\n")
+        rc, o = coq_eval("c14x_%d" % s0, v)
+        lst = parse_zlist(o, "M")
+        if rc != 0 or lst is None:
+            ck.violation("model-eval", {"kind": "model-eval"}, {"rc": rc, "out": o[-2000:]}, no_input=True)
+            return ck.finish()
+        for i in range(0, len(lst), 2):
+            xmism.append((s0 + lst[i], lst[i + 1]))
+    ck.extra["model_mismatches_extended"] = len(xmism)
+    for idx, c in enumerate(xcases):
+        why = xoracle(c)
+        j = dict(xmism).get(idx)
+        if why is None and j is None:
+            continue
+        jo = j - 1000000 if (j is not None and j >= 1000000) else j
+        op = c["ops"][jo] if (jo is not None and 0 <= jo < len(c["ops"])) else None
+        pg = c["pg"][jo] if (op is not None and jo < len(c.get("pg", []))) else None
+        flavour = "+".join(f for f in ("shared", "alloc", "imported") if c["cfg"][f]) or "plain"
+        sig = {"engine": c["engine"]}
+        if op is not None and j < 1000000 and c["engine"] == "compiler" and op[0] in GUEST_OPS and pg == 65536:
+            sig["kind"] = "compiler-guest-access-at-65536-pages"
+        elif why is not None:
+            sig["kind"] = "property-fails"
+            sig["flavour"] = flavour
+        else:
+            sig["kind"] = "model-differs"
+            sig["flavour"] = flavour
+        detail = {"case": c, "model_first_diff_op": j, "oracle": why,
+                  "note": "model_first_diff_op >= 1000000: the allocator requests differ at op (value - 1000000); -2: instantiation status differs"}
+        key = (sig["kind"], sig["engine"], sig.get("flavour"))
         if key in reported and len(reported) > 6:
             continue
         reported.add(key)
